@@ -77,7 +77,23 @@ impl<'t, 'a> LitGen<'t, 'a> {
     fn stmt(&mut self) -> String {
         self.counter += 1;
         let n = self.counter;
-        match self.t.below(37) {
+        match self.t.below(40) {
+            37 => {
+                // defaults and computed keys in the pattern of a declaration without initialiser (a for-of / for-in head)
+                let l = self.plant(None, true, false, "for-head-pattern-default");
+                let l2 = self.plant(None, true, false, "for-head-pattern-key");
+                format!("for (const {{ kind = {l}, [{l2}]: other }} of b) {{ x = kind + other; }}")
+            }
+            38 => {
+                let l = self.plant(None, true, false, "for-head-pattern-default");
+                format!("for (var [first = {l}] in a) {{ x = first; }}")
+            }
+            39 => {
+                // a call of the hook namespace written in the input itself (a file that was instrumented before)
+                let l1 = self.plant(Some(None), true, false, "input-hook-call-first-argument");
+                let l2 = self.plant(Some(None), true, false, "input-hook-call-later-argument");
+                format!("x = _ddiast.reportedBefore(a + {l1}, a, {l2});")
+            }
             36 => {
                 // a literal spelled with a lone surrogate escape: 7 + 5 UTF-16 units, no valid UTF-8 spelling of its own
                 if crate::known::avoid_flags().lone_surrogate_literal {
